@@ -18,9 +18,9 @@ SKIP_TRAITS = ('fmt::Debug', 'clone::Clone', 'cmp::', 'hash::Hash', 'default::De
 AUDIT = {
     'shift_and::ShiftAnd::new|explicit-panic|begin_panic(lit)<&str>':
         'documented refusal: assert!(m <= 64) outside the length limit of C08',
-    'shift_and::Matches::next|overflow-add|(Iterator>::next(x0) as Some).0.0,1':
+    'shift_and::Matches::next|overflow-add|x0,1':
         'i is an Enumerate index of the text: i + 1 <= text length <= usize::MAX',
-    'shift_and::Matches::next|overflow-sub|Add((Iterator>::next(x0) as Some).0.0,1).0,arg1.shiftand.m':
+    'shift_and::Matches::next|overflow-sub|Add(x0,1).0,arg1.shiftand.m':
         'the accept bit (bit m-1) can only be set after m shifts, i.e. after at least m symbols: i + 1 >= m',
     'bndm::BNDM::new|explicit-panic|begin_panic(lit)<&str>':
         'documented refusal: assert!(m <= 64) outside the length limit of C08',
@@ -40,9 +40,9 @@ AUDIT = {
         'documented refusal of the empty pattern (C08 quantifies over non-empty patterns)',
     'bom::BOM::new|overflow-add|ExactSizeIterator::len(IntoIterator::into_iter(arg1)),1':
         'm = pattern length <= isize::MAX',
-    'bom::BOM::new|overflow-add|(Iterator>::next(x0) as Some).0.0,1':
+    'bom::BOM::new|overflow-add|x0,1':
         'm = pattern length <= isize::MAX',
-    'bom::BOM::new|index|index(x0,Sub(Add((Iterator>::next(x1) as Some).0.0,1).0,1).0)<std::vec::Vec<std::option::Option<usize>>>':
+    'bom::BOM::new|index|index(x0,Sub(Add(x1,1).0,1).0)<std::vec::Vec<std::option::Option<usize>>>':
         'suff has m + 1 entries and i - 1 = j < m',
     'bom::BOM::new|index|index(x0,(x1 as Some).0)<std::vec::Vec<vec_map::VecMap<usize>>>':
         'k_ is a suffix-link state < i - 1 + 1 = number of tables pushed so far (oracle construction invariant)',
@@ -50,9 +50,9 @@ AUDIT = {
         'same state as the preceding contains_key test',
     'bom::BOM::new|index|index(x0,(x1 as Some).0)<std::vec::Vec<std::option::Option<usize>>>':
         'k_ < i <= m and suff has m + 1 entries',
-    'bom::BOM::new|unwrap|unwrap(VecMap::get(Index<I>>::index(x0,(x1 as Some).0),Borrow::borrow((Iterator>::next(x2) as Some).0.1)))<&usize>':
+    'bom::BOM::new|unwrap|unwrap(VecMap::get(Index<I>>::index(x0,(x1 as Some).0),Borrow::borrow(x2)))<&usize>':
         'the loop left through `break` exactly when table[k].contains_key(a)',
-    'bom::BOM::new|index|index_mut(x0,Add((Iterator>::next(x1) as Some).0.0,1).0)<std::vec::Vec<std::option::Option<usize>>>':
+    'bom::BOM::new|index|index_mut(x0,Add(x1,1).0)<std::vec::Vec<std::option::Option<usize>>>':
         'i = j + 1 <= m, suff has m + 1 entries',
     'bom::BOM::delta|index|index(arg1.table,arg2)<std::vec::Vec<vec_map::VecMap<usize>>>':
         'guarded by q >= self.table.len() on the other branch',
@@ -74,9 +74,9 @@ AUDIT = {
         'non-empty pattern (quantifier of C08): m >= 1',
     'horspool::Horspool::new|index|index(arg1,RangeTo::RangeTo{Sub(slice::len(arg1),1).0})<[u8]>':
         'm - 1 <= m = pattern.len()',
-    'horspool::Horspool::new|overflow-sub|Sub(slice::len(arg1),1).0,(Iterator>::next(x0) as Some).0.0':
+    'horspool::Horspool::new|overflow-sub|Sub(slice::len(arg1),1).0,x0':
         'j enumerates pattern[..m-1]: j <= m - 2',
-    'horspool::Horspool::new|index|index_mut(x0,(Iterator>::next(x1) as Some).0.1)<std::vec::Vec<usize>>':
+    'horspool::Horspool::new|index|index_mut(x0,x1)<std::vec::Vec<usize>>':
         'shift has 256 entries, index is a u8',
     'horspool::Horspool::find_all|overflow-sub|arg1.m,1':
         'm >= 1 (non-empty pattern)',
@@ -108,15 +108,13 @@ AUDIT = {
         'q - 1 < m = lps.len()',
     'kmp::lps|bounds|idx=x0,len=PtrMetadata(arg1)':
         'q <= i < m (q counts matched prefix symbols)',
-    'kmp::lps|bounds|idx=(range>::next(x0) as Some).0,len=PtrMetadata(arg1)':
-        'q <= i < m (q counts matched prefix symbols)',
     'kmp::lps|index|index(x0,Sub(x1,1).0)<std::vec::Vec<usize>>':
         'q - 1 < i < m = lps.len()',
-    'kmp::lps|index|index_mut(x0,(range>::next(x1) as Some).0)<std::vec::Vec<usize>>':
+    'kmp::lps|index|index_mut(x0,x1)<std::vec::Vec<usize>>':
         'i < m = lps.len()',
-    'kmp::Matches::next|overflow-add|1,(Iterator>::next(x0) as Some).0.0':
+    'kmp::Matches::next|overflow-add|1,x0':
         'i is an Enumerate index',
-    'kmp::Matches::next|overflow-sub|Add(1,(Iterator>::next(x0) as Some).0.0).0,arg1.kmp.m':
+    'kmp::Matches::next|overflow-sub|Add(1,x0).0,arg1.kmp.m':
         'q == m only after at least m symbols: i + 1 >= m',
 }
 
